@@ -11,12 +11,13 @@ record("History", fields={"_undo_list": "Seq[Change]", "_redo_list": "Seq[Change
        pyclass="rope.base.history:History", aliases={"undo_list": "_undo_list", "redo_list": "_redo_list"})
 specfun("to_data", ["Change"], "Opaque[CD]", note="ChangeToData()(c)")
 specfun("to_change", ["Opaque[CD]"], "Change", note="DataToChange(project)(d)")
-contract("History.save", abstract=True, is_property=True, pure=True, params={"self": "History"}, returns="Bool")
+ghost("saved", "Seq[Seq[Opaque[CD]]]")
+contract("History.save", abstract=True, is_property=True, pure=True, heap_independent=True, params={"self": "History"}, returns="Bool")
 contract("_DataFiles.read_data", abstract=True, params={"self": "_DataFiles", "name": "Str"}, returns="Opt[Seq[Seq[Opaque[CD]]]]",
          ensures=["implies(not is_none(result), len(val(result)) == 2)"],
          note="None or the complete value last written (c18_datafiles.py); History.write only ever writes a list of two lists (proved below)")
 contract("_DataFiles.write_data", abstract=True, params={"self": "_DataFiles", "name": "Str", "data": "Seq[Seq[Opaque[CD]]]"},
-         requires=["len(data) == 2"])
+         requires=["len(data) == 2"], modifies=["saved"], ensures=["saved == data"])
 contract("change.DataToChange", abstract=True, params={"project": "Project"}, returns="DataToChange")
 contract("change.ChangeToData", abstract=True, params={}, returns="ChangeToData")
 contract("DataToChange.__call__", abstract=True, params={"self": "DataToChange", "data": "Opaque[CD]"}, returns="Change",
@@ -25,6 +26,10 @@ contract("ChangeToData.__call__", abstract=True, params={"self": "ChangeToData",
          ensures=["result == to_data(change)"])
 contract("History._remove_extra_items", abstract=True, params={"self": "History"}, modifies=["self._undo_list"],
          ensures=["len(self._undo_list) <= len(old(self._undo_list))"], note="verified in c11_history.py")
+specdef("saved_is", {"sv": "Seq[Seq[Opaque[CD]]]", "u": "Seq[Change]", "r": "Seq[Change]"}, "Bool",
+        "len(sv) == 2 and len(sv[0]) == len(u) and len(sv[1]) == len(r) and "
+        "forall(lambda k: implies(0 <= k and k < len(u), sv[0][k] == to_data(u[k]))) and "
+        "forall(lambda k: implies(0 <= k and k < len(r), sv[1][k] == to_data(r[k])))")
 
 contract("History._load_history", source=M + "History._load_history", params={"self": "History"},
          requires=["len(self._undo_list) == 0", "len(self._redo_list) == 0"],
@@ -38,8 +43,11 @@ contract("History._load_history", source=M + "History._load_history", params={"s
          ensures=["True"],
          note="no exception for None or a complete value; the loaded lists are the element-wise conversion of the saved ones")
 contract("History.write", source=M + "History.write", params={"self": "History"},
-         modifies=["self._undo_list"], raises={},
+         modifies=["self._undo_list", "saved"], raises={},
+         ensures=["implies(self.save, saved_is(saved, self._undo_list, self._redo_list))"],
          locals={"data": "Seq[Seq[Opaque[CD]]]"},
          loops={1: {"index": "i", "elem": "Opaque[CD]", "inv": ["len(_comp) == i", "forall(lambda k: implies(0 <= k and k < i, _comp[k] == to_data(self._undo_list[k])))"]},
-                2: {"index": "i", "elem": "Opaque[CD]", "inv": ["len(_comp) == i", "len(data) == 1"]}},
+                2: {"index": "i", "elem": "Opaque[CD]", "inv": ["len(_comp) == i", "len(data) == 1", "len(data[0]) == len(self._undo_list)",
+                                                             "forall(lambda k: implies(0 <= k and k < len(self._undo_list), data[0][k] == to_data(self._undo_list[k])))",
+                                                             "forall(lambda k: implies(0 <= k and k < i, _comp[k] == to_data(self._redo_list[k])))"]}},
          note="what is saved is a list of exactly two lists (call precondition of write_data)")
